@@ -6,6 +6,7 @@ import (
 	"go/token"
 	"go/types"
 	"sort"
+	"strconv"
 	"strings"
 )
 
@@ -951,4 +952,129 @@ func (e *Engine) addPEGObligations() {
 	e.addPEGAtomicity(pa)
 	e.addPEGFlagObligations(pa)
 	e.addPEGTyping(pa)
+	e.languageObligations()
+}
+
+// languageObligations (C19): error text is rendered only in the configured language.
+//
+//	frame:fmtErr/language-purity        in fmtErr, the branch of one language appends no text of the other
+//	frame:actions/addErr-language       parse errors raised by grammar actions consult the language setting
+func (e *Engine) languageObligations() {
+	fi := e.P.Funcs["fmtErr"]
+	if fi == nil || fi.Decl == nil {
+		e.frameObl("frame:fmtErr/language-purity", []string{"C19"}, false, "", "fmtErr exists", "function not found")
+		return
+	}
+	hasCJK := func(s string) bool {
+		for _, r := range s {
+			if r >= 0x2E80 {
+				return true
+			}
+		}
+		return false
+	}
+	hasWord := func(s string) bool {
+		run := 0
+		for _, r := range s {
+			if (r >= 'a' && r <= 'z') || (r >= 'A' && r <= 'Z') {
+				run++
+				if run >= 3 {
+					return true
+				}
+			} else {
+				run = 0
+			}
+		}
+		return false
+	}
+	var bad []string
+	switches := 0
+	ast.Inspect(fi.Decl.Body, func(n ast.Node) bool {
+		sw, ok := n.(*ast.SwitchStmt)
+		if !ok {
+			return true
+		}
+		if id, ok := sw.Tag.(*ast.Ident); !ok || id.Name != "parseErrorLanguage" {
+			return true
+		}
+		switches++
+		for _, c := range sw.Body.List {
+			cc := c.(*ast.CaseClause)
+			lang := ""
+			for _, x := range cc.List {
+				if id, ok := x.(*ast.Ident); ok {
+					switch id.Name {
+					case "ParseErrorLanguageChinese":
+						lang = "cn"
+					case "ParseErrorLanguageEnglish":
+						lang = "en"
+					}
+				}
+			}
+			if lang == "" {
+				continue // the bilingual default
+			}
+			for _, st := range cc.Body {
+				ast.Inspect(st, func(m ast.Node) bool {
+					switch u := m.(type) {
+					case *ast.Ident:
+						if lang == "cn" && u.Name == "en" {
+							bad = append(bad, "the Chinese branch uses the English message at "+e.posStr(u.Pos()))
+						}
+						if lang == "en" && u.Name == "cn" {
+							bad = append(bad, "the English branch uses the Chinese message at "+e.posStr(u.Pos()))
+						}
+					case *ast.BasicLit:
+						if u.Kind == token.STRING {
+							s, _ := strconv.Unquote(u.Value)
+							if lang == "cn" && hasWord(s) {
+								bad = append(bad, "the Chinese branch appends English text "+u.Value)
+							}
+							if lang == "en" && hasCJK(s) {
+								bad = append(bad, "the English branch appends Chinese text "+u.Value)
+							}
+						}
+					}
+					return true
+				})
+			}
+		}
+		return true
+	})
+	e.frameObl("frame:fmtErr/language-purity", []string{"C19"}, len(bad) == 0 && switches >= 2, e.posStr(fi.Decl.Pos()),
+		"in fmtErr the branch of one configured language appends no header, position or message text of the other", strings.Join(bad, "; "))
+	// grammar actions: p.addErr(errors.New("...")) with a literal that exists in one language only
+	var mono []string
+	for _, key := range sortedKeys(e.P.Funcs) {
+		f := e.P.Funcs[key]
+		if !strings.HasPrefix(key, "(*parser).call_on") || f.Decl == nil || f.Decl.Body == nil {
+			continue
+		}
+		ast.Inspect(f.Decl.Body, func(n ast.Node) bool {
+			ce, ok := n.(*ast.CallExpr)
+			if !ok {
+				return true
+			}
+			se, ok := ce.Fun.(*ast.SelectorExpr)
+			if !ok || se.Sel.Name != "addErr" {
+				return true
+			}
+			ast.Inspect(ce, func(m ast.Node) bool {
+				if bl, ok := m.(*ast.BasicLit); ok && bl.Kind == token.STRING {
+					s, _ := strconv.Unquote(bl.Value)
+					if hasCJK(s) != hasWord(s) || (hasCJK(s) && !strings.Contains(f.Decl.Name.Name, "")) {
+						if hasCJK(s) && !hasWord(s) {
+							mono = append(mono, strings.TrimPrefix(key, "(*parser).")+": Chinese only "+bl.Value)
+						} else if hasWord(s) && !hasCJK(s) {
+							mono = append(mono, strings.TrimPrefix(key, "(*parser).")+": English only "+bl.Value)
+						}
+					}
+				}
+				return true
+			})
+			return true
+		})
+	}
+	e.frameObl("frame:actions/addErr-language", []string{"C19"}, len(mono) == 0, "",
+		"parse errors raised by grammar actions are available in the configured language", strings.Join(mono, "; "))
 }
